@@ -169,7 +169,7 @@ impl Property for C01 {
         }
     }
     fn required_labels(&self, _tier: Tier) -> Vec<&'static str> {
-        vec!["nontrivial", "ancestors>30", "parents>30", "children>30", "many-parents-few-ancestors", "records>255", "diamond", "multiroot", "detached", "id0", "id9999999", "bulk>65535-terms", "depth>255", "depth>4096"]
+        vec!["nontrivial", "ancestors>30", "parents>30", "children>30", "many-parents-few-ancestors", "records>255", "diamond", "multiroot", "detached", "id0", "id9999999", "bulk>65535-terms", "depth>255", "depth>4096", "direct-parents>255"]
     }
     fn run_generated(&self, tier: Tier, seed: u64, n: u64, stats: &mut Stats) -> Option<(Value, Failure)> {
         let max = if tier == Tier::Quick { 72 } else { 130 };
@@ -185,6 +185,16 @@ impl Property for C01 {
             let v: (u32, u32, PathSel) = serde_json::from_value(b.clone()).map_err(|e| e.to_string())?;
             stats.cases += 1;
             return Ok(check_deep(v.0, v.1, v.2, stats));
+        }
+        if let Some(b) = case.get("fanin") {
+            // one term with more direct parents than an 8-bit counter holds
+            let v: (u32, u32, PathSel) = serde_json::from_value(b.clone()).map_err(|e| e.to_string())?;
+            stats.cases += 1;
+            let r = check_big(&super::common::fanin_facts(v.0, v.1, 0), v.0, v.2, stats);
+            if r.is_ok() {
+                stats.label("direct-parents>255");
+            }
+            return Ok(r);
         }
         replay_typed::<OntCase, _>(case, stats, check)
     }
@@ -206,6 +216,13 @@ impl Property for C01 {
             deep.push((20_000, mult, PathSel::Bin(2)));
         }
         out.extend(deep.into_iter().map(|p| json!({"deep": p})));
+        out.push(json!({"fanin": (300u32, mult, PathSel::Bin(3))}));
+        out.push(json!({"fanin": (257u32, mult, PathSel::Builder)}));
+        if tier == Tier::Thorough {
+            out.push(json!({"fanin": (70_000u32, mult, PathSel::RoundTrip)}));
+            out.push(json!({"fanin": (300u32, mult, PathSel::Jax)}));
+            out.push(json!({"fanin": (256u32, mult, PathSel::Bin(1))}));
+        }
         out
     }
 }
